@@ -5,6 +5,7 @@ L4 main object first in the history   L5 drop-in layers low->high, always   L6 d
 L7 scandir sorted by alphasort, walked ascending   L8 suffix filter   L9 accepted files appended   L10 same-name masking
 L11 merge direction   L12 nothing found = ECONF_NOFILE   L13 NULL/NULL refused   L14 suffix gets its dot
 L15 ECONF_NOFILE from the gate only for a file that is not there   L16 absolute names stored as given   L17 (conf_dirs, conf_count) pair consistent (= C12.F3)"""
+import re
 from sa.ast import render
 from sa.facts import Inconclusive
 from sa import query, loops
@@ -694,7 +695,92 @@ def l15_l17(prog, ctx):
         ctx.inconclusive("L17", "the drop-in directory list is a consistent pair", "", str(e))
 
 
+def l18_l19(prog, ctx):
+    """L18 every directory entry whose name ends in the suffix IS read: nothing else about the entry (its type, what a link
+    points to, its size) decides whether it takes part - a link to /dev/null placed in /etc must still mask its namesake.
+    L19 the computed layer list lives only in the object of the call that computed it: the merged result does not carry
+    parse_dirs / conf_dirs over, otherwise the next read with that handle skips the computation (`parse_dirs_count == 0`)."""
+    f = prog.fn("check_conf_dir")
+    ctx.touch(f)
+    cfg = f.cfg
+    g = f.calls(GATE)
+    main = [x for x in f.walk() if x.k in ("ForStmt", "WhileStmt") and g and g[0].within(x) and not any(y.k in ("ForStmt", "WhileStmt") and g[0].within(y) and y.within(x) and y is not x for y in f.walk())]
+    if len(g) != 1 or not main:
+        ctx.inconclusive("L18", "every entry with the suffix is read", f.where, "per-file read / loop not found")
+    else:
+        lp = main[0]
+        gb = cfg.block_of(g[0])
+        hb = cfg.loop_header(lp)
+        # literals that must hold to reach the read (the suffix test) ...
+        req = cfg.required_literals(gb, start=cfg.loop_body_entry(lp), expand_locals=False)
+        req_keys = set(l.key() for l in req)
+        # ... and any other two-way branch in the round from which the next round is reachable without the read
+        extra = None
+        body = cfg.natural_loop(hb)
+        for (b, i, s2) in cfg.edges():
+            if b not in body or b == hb:
+                continue
+            lit = cfg.edge_lit(b, i)
+            if lit is None or cfg.blocks[b].cond is None or not cfg.blocks[b].cond.within(lp):
+                continue
+            if not cfg.dominates(b, gb) and gb not in cfg.reachable(b, avoid_blocks=[hb]):
+                continue
+            if gb in cfg.reachable(b, avoid_blocks=[hb]) and b != gb:
+                # a branch in front of the read: its other side must not skip the read for an entry that has the suffix
+                skip = cfg.reachable(s2, avoid_blocks=[gb])
+                if hb in skip and gb not in cfg.reachable(s2, avoid_blocks=[hb]):
+                    mentions_suffix = "config_suffix" in lit.atom or "suffix" in lit.atom or "d_name" in lit.atom and ("strlen" in lit.atom or "strncmp" in lit.atom or "strcmp" in lit.atom)
+                    resolved = _resolve_len_names(f, lit)
+                    alloc_fail = lit.kind == "truth" and any(x.k == "CallExpr" and x.j.get("callee") in ("econf_newKeyFile_with_options", "malloc", "calloc", "combine_strings") for x in lit.node.walk())
+                    if not (mentions_suffix or resolved or alloc_fail) and lit.negated().key() not in set() :
+                        extra = (cfg.blocks[b].cond, lit)
+        if extra is None:
+            ctx.ok("L18", "every entry with the suffix is read", g[0].where, "between the suffix test and the read no other test can send the loop on to the next entry")
+        else:
+            ctx.fail("L18", "every entry with the suffix is read", extra[0].where,
+                     "an entry whose name has the suffix is skipped when `%s`: e.g. a symbolic link to /dev/null (the documented way to switch a vendor drop-in "
+                     "off) is no longer read, so it no longer masks the file of the same name in a lower layer" % extra[1], key="entry-filter")
+    # L19
+    m = prog.fn("readConfigWithCallback")
+    ctx.touch(m)
+    mcalls = m.calls("merge_econf_files")
+    bad = None
+    for lhs, rhs, st, kind in query.stores(m):
+        t = render(lhs)
+        if re.search(r"->(parse_dirs|parse_dirs_count|conf_dirs|conf_count)$", t) and rhs is not None and not rhs.is_null_const() and rhs.const_value() != 0:
+            if mcalls and cfg_reaches(m, mcalls[0], st):
+                bad = st
+    if bad is not None:
+        ctx.fail("L19", "the merged result does not carry the computed layers", bad.where,
+                 "`%s` after the merge: the result keeps the layer list of THIS call; a second read with the same handle finds parse_dirs_count != 0 and does not "
+                 "compute the layers of its own project / sub-directory" % render(bad)[:70], key="layers-carried-over")
+    else:
+        ctx.ok("L19", "the merged result does not carry the computed layers", m.where, "no store into parse_dirs / conf_dirs of the result behind merge_econf_files()")
+
+
+def cfg_reaches(fn, a, b):
+    cfg = fn.cfg
+    ba, bb = cfg.block_of(a), cfg.block_of(b)
+    return ba is not None and bb is not None and bb in cfg.reachable(ba)
+
+
+def _resolve_len_names(f, lit):
+    """is the literal the suffix test written with locals (lensuffix < lenstr ...)?"""
+    from sa.dataflow import ReachingDefs
+    names = set(x.j["name"] for x in lit.node.walk() if x.k == "DeclRefExpr" and x.j.get("dk") == "local")
+    if lit.kind in ("lt", "eq"):
+        for side in (lit.lhs, lit.rhs):
+            names |= set(x.j["name"] for x in side.walk() if x.k == "DeclRefExpr" and x.j.get("dk") == "local")
+    rd = ReachingDefs(f)
+    for n in names:
+        for d in rd.defs:
+            if d.var == n and d.rhs is not None and ("config_suffix" in render(d.rhs) or "d_name" in render(d.rhs)) and "strlen" in render(d.rhs):
+                return True
+    return False
+
+
 def run(prog, ctx):
+    l18_l19(prog, ctx)
     l1(prog, ctx)
     l2_l5(prog, ctx)
     l6_l9(prog, ctx)
